@@ -16,5 +16,5 @@ for p in consts:Consts notifyprog:Notify facts:Facts; do
     rm lean/Klev/Gen/$name.lean.new
   fi
 done
-(cd lean && lake build Klev Driver kdriver && for f in Klev/Props/C*.lean; do m=$(echo "$f" | sed 's/\.lean$//; s/\//./g'); lake build "$m"; done)
+(cd lean && lake build Klev kdriver && for f in Klev/Props/C*.lean; do m=$(echo "$f" | sed 's/\.lean$//; s/\//./g'); lake build "$m"; done)
 echo setup-ok
